@@ -480,6 +480,7 @@ func (e *Exec) execInstr(fr *frame, ins ssa.Instruction) {
 		if m == nil {
 			e.runtimePanic("assignment to entry in nil map")
 		}
+		e.raceOnMap(m, true)
 		e.mapStore(m, e.get(fr, i.Key), e.get(fr, i.Value))
 	case *ssa.Next:
 		fr.regs[i] = e.next(i, e.get(fr, i.Iter).(*RangeIter))
@@ -861,6 +862,7 @@ func (e *Exec) callBuiltin(b *ssa.Builtin, args []Value, c *ssa.CallCommon, defe
 			if x == nil {
 				return mkBV(64, 0)
 			}
+			e.raceOnMap(x, false)
 			return mkBV(64, uint64(len(x.keys)))
 		case *Cell:
 			return mkBV(64, uint64(len(x.v.(*ArrM).elems)))
@@ -885,6 +887,7 @@ func (e *Exec) callBuiltin(b *ssa.Builtin, args []Value, c *ssa.CallCommon, defe
 	case "delete":
 		m := args[0].(*MapV)
 		if m != nil {
+			e.raceOnMap(m, true)
 			e.mapDelete(m, args[1])
 		}
 		return nil
@@ -930,6 +933,7 @@ func (e *Exec) callBuiltin(b *ssa.Builtin, args []Value, c *ssa.CallCommon, defe
 		switch x := args[0].(type) {
 		case *MapV:
 			if x != nil {
+				e.raceOnMap(x, true)
 				x.keys, x.vals = nil, nil
 			}
 		case SliceV:
@@ -1617,6 +1621,7 @@ func (e *Exec) lookup(i *ssa.Lookup, x Value, idx Value) Value {
 		vt := under(i.X.Type()).(*types.Map).Elem()
 		k := -1
 		if m != nil {
+			e.raceOnMap(m, false)
 			k = e.mapFind(m, idx)
 		}
 		var v Value
@@ -1641,6 +1646,7 @@ func (e *Exec) rangeIter(x Value) Value {
 	case *MapV:
 		it := &RangeIter{m: v}
 		if v != nil {
+			e.raceOnMap(v, false)
 			e.note("assumption: map iteration in insertion order")
 			it.keys = append(it.keys, v.keys...)
 			for _, c := range v.vals {
